@@ -576,96 +576,137 @@ def descent_ok(func, storage):
                   '(provided,) with exact keys' % storage)
 
 
-def extendor_index(rep, rule, mod):
-    add = find_def(mod, 'AdapterLookupBase.add_extendor')
-    p_prov = params(add)[1]
-    lps = loops_over(add, '%s.__iro__' % p_prov)
-    okl = len(lps) == 1 and isinstance(lps[0][0], ast.For)
-    rep.check(rule, 'AdapterLookupBase.add_extendor', okl,
-              'updates the extendor list of every interface in provided.__iro__ '
-              '(loops found: %d)' % len(lps), construct='iro-loop', node=add)
-    if okl:
-        lp = lps[0][0]
-        exits = [n for n in walk_local(lp)
-                 if isinstance(n, (ast.Break, ast.Return, ast.Continue))]
-        stores = [n for n in walk_local(lp) if isinstance(n, ast.Assign)
-                  and isinstance(n.targets[0], ast.Subscript)]
-        good = False
-        detail = 'no store of the new extendor list found'
-        for st in stores:
-            v = st.value
-            parts = []
+def _stored_list(text):
+    return text.startswith(('self._extendors.get(', 'self._extendors[',
+                            'self._extendors.setdefault('))
 
-            def flat(e):
-                if isinstance(e, ast.BinOp) and isinstance(e.op, ast.Add):
-                    flat(e.left)
-                    flat(e.right)
-                else:
-                    parts.append(e)
-            flat(v)
-            if len(parts) != 3:
-                detail = 'stored value has %d concatenated parts: %s' % (
-                    len(parts), norm_src(v))
-                continue
-            a, m, b = parts
-            envm = match('[%s]' % p_prov, m)
-            enva = match('[$e for $e in $xs if %s.isOrExtends($e)]' % p_prov, a)
-            envb = match('[$e for $e in $xs if not %s.isOrExtends($e)]' % p_prov, b)
-            if envm is not None and enva is not None and envb is not None \
-                    and same(enva['xs'], envb['xs']):
-                xs = resolve_local(add, enva['xs'])
-                key = st.targets[0].slice
-                cont = resolve_local(add, st.targets[0].value)
-                okx = isinstance(xs, ast.Call) and \
-                    isinstance(xs.func, ast.Attribute) and \
-                    xs.func.attr == 'get' and same(xs.args[0], key) and \
-                    isinstance(key, ast.Name) and \
-                    isinstance(lp.target, ast.Name) and key.id == lp.target.id \
-                    and match('self._extendors', cont) is not None \
-                    and match('self._extendors', resolve_local(add, xs.func.value)) is not None
-                good = okx and not exits
-                detail = ('new list = [e | provided.isOrExtends(e)] + [provided]'
-                          ' + [e | not provided.isOrExtends(e)] over the old '
-                          'list of the same key in self._extendors: %s; early exits %d'
-                          % (okx, len(exits)))
-                if good:
-                    break
-            else:
-                detail = ('stored value `%s` is not [more general...] + '
-                          '[provided] + [rest]' % norm_src(v)[:200])
-        rep.check(rule, 'AdapterLookupBase.add_extendor', good, detail,
-                  construct='order', node=lp)
+
+def extendor_index(rep, rule, mod):
+    """over path summaries (list content tracked, loops folded): for every
+    interface of provided.__iro__ the extendor list is REPLACED by
+    [old entries provided extends] + [provided] + [the other old entries]
+    (add) / the old entries != provided (remove); never edited in place"""
+    from ..sympath import summaries, normal
+    from .sem import nt
+    from .rosem import seq_parts, comp_shape
+    add = find_def(mod, 'AdapterLookupBase.add_extendor')
+    prov = params(add)[1]
+    IRO = '%s.__iro__' % prov
+    E = 'EACH(%s)' % IRO
+    OLD = ('self._extendors.get(%s, ())' % E, 'self._extendors.get(%s, [])' % E)
+    probs = []
+    n = 0
+    for ps in normal(summaries(add, lists=True)):
+        sts = [e for e in ps.stores() if isinstance(e.r, ast.Subscript)
+               and nt(e.r.value) == 'self._extendors']
+        if not ps.facts.get('ITER(%s)' % IRO):
+            if sts:
+                probs.append('stores without walking provided.__iro__')
+            continue
+        conds = [c for c, t, p in ps.order if not c.startswith('ITER(')]
+        if conds:
+            probs.append('the update of an interface of provided.__iro__ depends on '
+                         '`%s`' % conds[0][:60])
+        if len(sts) != 1 or nt(sts[0].r.slice) != E:
+            probs.append('%d stores for an interface of provided.__iro__' % len(sts))
+            continue
+        n += 1
+        parts = seq_parts(sts[0].val)
+        ok = len(parts) == 3 and parts[0][0] == 'each' and parts[2][0] == 'each' and \
+            parts[1][0] == 'item' and nt(parts[1][1]) == prov
+        if ok:
+            a_, b_ = comp_shape(parts[0][1]), comp_shape(parts[2][1])
+            ok = a_ is not None and b_ is not None and a_[0] == '$' and b_[0] == '$' \
+                and a_[1] in OLD and b_[1] == a_[1] and a_[2] == 'fwd' and b_[2] == 'fwd' \
+                and a_[3] == ['%s.isOrExtends($)' % prov] \
+                and b_[3] == ['not %s.isOrExtends($)' % prov]
+        if not ok:
+            probs.append('new list `%s` is not [more general...] + [provided] + [rest] '
+                         'over the old list of the same key' % nt(sts[0].val)[:160])
+        muts = [e for e in ps.events if e.kind == 'call' and
+                isinstance(e.r.func, ast.Attribute) and
+                e.r.func.attr in ('remove', 'insert', 'append', 'extend', 'pop', 'sort')
+                and _stored_list(nt(e.r.func.value))]
+        if muts:
+            probs.append('edits a stored extendor list in place: `%s`' % nt(muts[0].r)[:60])
+    for lp in walk_local(add):
+        if isinstance(lp, ast.For) and IRO in norm_src(lp.iter) and \
+                [x for x in walk_local(lp) if isinstance(x, (ast.Break, ast.Return))]:
+            probs.append('the walk over provided.__iro__ can end early')
+    if not n:
+        probs.append('no path updates an extendor list')
+    rep.check(rule, 'AdapterLookupBase.add_extendor', not probs,
+              'for every interface of provided.__iro__: new list = [e | '
+              'provided.isOrExtends(e)] + [provided] + [e | not provided.isOrExtends(e)] '
+              'over the old list of the same key in self._extendors (a new list '
+              'object)' if not probs else {'problems': sorted(set(probs))[:3]},
+              construct='order', node=add)
     rem = find_def(mod, 'AdapterLookupBase.remove_extendor')
-    p_prov = params(rem)[1]
-    lps = loops_over(rem, '%s.__iro__' % p_prov)
-    okl = len(lps) >= 1
-    detail = 'loops over provided.__iro__: %d' % len(lps)
-    if okl:
-        lp = lps[0][0]
-        comps = [n for n in walk_local(lp) if isinstance(n, ast.ListComp)]
-        okl = False
-        for c in comps:
-            env = match('[$e for $e in $xs if $e != %s]' % p_prov, c)
-            if env is not None:
-                st = stmt_of(c)
-                xs = resolve_local(rem, env['xs'])
-                okl = isinstance(st, ast.Assign) and \
-                    isinstance(st.targets[0], ast.Subscript) and \
-                    isinstance(lp.target, ast.Name) and \
-                    match('$c.get(%s, $$d)' % lp.target.id, xs) is not None and \
-                    match('$c[%s]' % lp.target.id, st.targets[0]) is not None
-        exits = [n for n in walk_local(lp)
-                 if isinstance(n, (ast.Break, ast.Return, ast.Continue))]
-        okl = okl and not exits
-        detail = ('for every interface of provided.__iro__ keeps exactly the '
-                  'entries e != provided (equality): %s' % okl)
-    rep.check(rule, 'AdapterLookupBase.remove_extendor', okl, detail,
+    prov = params(rem)[1]
+    IRO = '%s.__iro__' % prov
+    E = 'EACH(%s)' % IRO
+    OLD = ('self._extendors.get(%s, ())' % E, 'self._extendors.get(%s, [])' % E)
+    probs = []
+    n = 0
+    for ps in normal(summaries(rem, lists=True)):
+        sts = [e for e in ps.stores() if isinstance(e.r, ast.Subscript)
+               and nt(e.r.value) == 'self._extendors']
+        if not ps.facts.get('ITER(%s)' % IRO):
+            if sts:
+                probs.append('stores without walking provided.__iro__')
+            continue
+        conds = [c for c, t, p in ps.order if not c.startswith('ITER(')]
+        if conds:
+            probs.append('depends on `%s`' % conds[0][:60])
+        muts = [e for e in ps.events if e.kind == 'call' and
+                isinstance(e.r.func, ast.Attribute) and
+                e.r.func.attr in ('remove', 'insert', 'append', 'extend', 'pop', 'sort')
+                and _stored_list(nt(e.r.func.value))]
+        if muts:
+            probs.append('edits a stored extendor list in place: `%s` (lookups in '
+                         'progress iterate these lists)' % nt(muts[0].r)[:60])
+        if len(sts) != 1 or nt(sts[0].r.slice) != E:
+            probs.append('%d stores for an interface of provided.__iro__' % len(sts))
+            continue
+        n += 1
+        parts = seq_parts(sts[0].val)
+        sh = comp_shape(parts[0][1]) if len(parts) == 1 and parts[0][0] == 'each' else None
+        if sh is None or sh[0] != '$' or sh[1] not in OLD or sh[2] != 'fwd' or \
+                sh[3] not in (['$ != %s' % prov], ['not $ == %s' % prov]):
+            probs.append('new list `%s`' % nt(sts[0].val)[:120])
+    for lp in walk_local(rem):
+        if isinstance(lp, ast.For) and IRO in norm_src(lp.iter) and \
+                [x for x in walk_local(lp) if isinstance(x, (ast.Break, ast.Return))]:
+            probs.append('the walk over provided.__iro__ can end early')
+    if not n:
+        probs.append('no path updates an extendor list')
+    rep.check(rule, 'AdapterLookupBase.remove_extendor', not probs,
+              'for every interface of provided.__iro__ keeps exactly the entries '
+              'e != provided (equality), in order, as a new list'
+              if not probs else {'problems': sorted(set(probs))[:3]},
               construct='remove', node=rem)
-    # init_extendors rebuilds from the registry's provided counts
     ini = find_def(mod, 'AdapterLookupBase.init_extendors')
-    lps = loops_over(ini, 'self._registry._provided')
-    ok = len(lps) == 1 and bool(find_all(lps[0][0], 'self.add_extendor($p)')) \
-        and bool(find_all(ini, 'self._extendors = {}', 'exec'))
-    rep.check(rule, 'AdapterLookupBase.init_extendors', ok,
-              'a new lookup object indexes every provided interface of the '
-              'registry', construct='init', node=ini)
+    probs = []
+    n = 0
+    for ps in normal(summaries(ini)):
+        reset = [i for i, e in enumerate(ps.events) if e.kind == 'store' and
+                 nt(e.r) == 'self._extendors' and nt(e.val) in ('{}', 'dict()')]
+        adds = [i for i, e in enumerate(ps.events) if e.kind == 'call' and
+                nt(e.r.func) == 'self.add_extendor']
+        if len(reset) != 1 or (adds and min(adds) < reset[0]):
+            probs.append('the index is not reset first')
+        if ps.facts.get('ITER(self._registry._provided)'):
+            n += 1
+            if [nt(ps.events[i].r) for i in adds] != [
+                    'self.add_extendor(EACH(self._registry._provided))']:
+                probs.append('a provided interface of the registry is not indexed')
+            if [c for c, t, p in ps.order if not c.startswith('ITER(')]:
+                probs.append('indexing is conditional')
+    if not n:
+        probs.append('the registry\'s provided interfaces are not walked')
+    rep.check(rule, 'AdapterLookupBase.init_extendors', not probs,
+              'a new lookup object indexes every provided interface of the registry'
+              if not probs else {'problems': sorted(set(probs))[:3]},
+              construct='init', node=ini)
+
+
